@@ -10,7 +10,7 @@ import ast
 from typing import List, Optional, Tuple
 
 from ..cfg import cfg_of, Path
-from ..flow import Sym, find_calls, strip_wrappers, fpaths
+from ..flow import Sym, find_calls, strip_wrappers, fpaths, allfacts
 from ..model import attr_chain, norm, walk_no_nested, FuncInfo
 from ..report import Checker
 
@@ -114,7 +114,7 @@ def run(ch: Checker) -> None:
         if not sinks:
             nonsink_paths += 1
             queued = [norm(c.args[0]) for idx, st in p.stmts() for c in find_calls(st, 'self.client', 'queue') if c.args]
-            ch.check('NOT_FOUND_RESPONSE_PKT' in queued, 'C13.1b', f, 'path without sink: ' + ' / '.join('%s=%s' % (a, b) for a, b in p.facts())[:120],
+            ch.check('NOT_FOUND_RESPONSE_PKT' in queued, 'C13.1b', f, 'path without sink: ' + ' / '.join('%s=%s' % (a, b) for a, b in list(allfacts(p).items()))[:120],
                      'refusal path queues NOT_FOUND_RESPONSE_PKT', 'a path that does not serve a file does not answer 404 (queued: %s)' % queued,
                      witness=p.describe())
             continue
@@ -145,7 +145,7 @@ def run(ch: Checker) -> None:
                 ch.ok('C13.1', f, call, 'sink path %s is normalised and guarded by %s' % (cand[:80], found))
             else:
                 ch.bad('C13.1', f, call, 'no accepted containment test of the normalised candidate against the normalised root dominates the sink '
-                                         '(facts on the path: %s)' % '; '.join('%s=%s' % x for x in p.facts())[:200], witness=wit)
+                                         '(facts on the path: %s)' % '; '.join('%s=%s' % x for x in list(allfacts(p).items()))[:200], witness=wit)
             # C13.2 query stripping: every occurrence of the source inside the candidate sits under split('?')[0]
             ok_q = _query_stripped(cand_ast, src)
             ch.check(ok_q, 'C13.2', f, call, 'request path enters the candidate only through split("?")[0]',
@@ -225,7 +225,7 @@ def run(ch: Checker) -> None:
             for idx, st in p.stmts():
                 if any(x is c for x in walk_no_nested(st)):
                     n_paths += 1
-                    facts = p.facts(idx)
+                    facts = list(allfacts(p, idx).items())
                     if ('self.route is None', True) not in facts or ('self.flags.enable_static_server', True) not in facts:
                         allok = False
                         ch.bad('C13.3', fn, c, 'static fallback reached without `self.route is None` and `flags.enable_static_server` (facts: %s)' % facts, witness=p.describe())
